@@ -94,7 +94,7 @@ def advertise_and_judge(ctx, radio, b, mac, pa, name, chunks, single, what=""):
     name_cost = 0 if name is None else len(name) + 2
     free_doc = 18 - name_cost - (3 if pa is not None else 0)
     ctx.check(b.len_available() == free_doc, what + "len_available() = bytes still free")
-    mark = len(radio.log)
+    mark, sent0 = len(radio.log), len(radio.sent)
     try:
         if single is not None:
             b.advertise(single[0], single[1])
@@ -112,6 +112,9 @@ def advertise_and_judge(ctx, radio, b, mac, pa, name, chunks, single, what=""):
     ctx.check(len(tx) == 1 and len(tx[0]) == 32, what + "one 32-byte radio payload is loaded")
     if len(tx) != 1:
         return
+    air = radio.sent[sent0:]
+    ctx.check(len(air) >= 1 and len(air[-1]["data"]) == 32 and bool(bytes_eq(air[-1]["data"], tx[0])),
+              what + "and that payload is what the radio puts on the air")
     rf_ch = ctx.conc(radio.reg[5])
     ctx.check(rf_ch in BS.FREQ_TO_CHANNEL, what + "the radio is tuned to a BLE advertising frequency")
     if rf_ch not in BS.FREQ_TO_CHANNEL:
@@ -189,6 +192,7 @@ def o1_advertise(ctx, name_kind, name_len, pa, mac_kind, chunk_lens, single, pa_
 
 
 CH_OPS = ("hop", "channel", "reenter", "other_ble", "channel_invalid", "foreign_retune_then_channel", "advertise_short")
+EXTRA_OPS = ("stale_tx_1", "stale_tx_2", "stale_tx_3")  # another driver object left 1..3 payloads in the shared radio's TX FIFO
 
 
 def o2_sync(ctx, ops):
@@ -219,6 +223,26 @@ def o2_sync(ctx, ops):
             advertise_and_judge(ctx, radio, b, blist(b.mac), None, None, [], (b"", 0xFF), "earlier short advertisement: ")
         elif op == "reenter":
             b.__exit__()
+            b.__enter__()
+        elif op == "named_block":
+            # an earlier block of the same object advertised with a name and the PA-level field; leaving the block withdraws
+            # both (documented), so later advertisements carry neither and have the full 18 bytes free again
+            nm = blist(ctx.bytes("earlier_name", 5))
+            b.name = SBytes(nm) if ctx.symbolic else bytes(nm)
+            b.show_pa_level = True
+            advertise_and_judge(ctx, radio, b, blist(b.mac), 0, nm, [], (b"", 0xFF), "earlier named advertisement: ")
+            b.__exit__()
+            b.__enter__()
+            ctx.check(b.name is None and not b.show_pa_level, "leaving the block withdraws the name and the PA-level field")
+        elif op.startswith("stale_tx_"):
+            from circuitpython_nrf24l01.rf24 import RF24
+            b.__exit__()
+            plain = RF24(FakeSpiDev(radio), 0, Pin(radio))
+            with plain:
+                plain.listen = False
+                for k in range(int(op[-1])):
+                    plain.write(bytes([k + 1] * 5), write_only=True)  # uploaded, never sent (CE stays low)
+            ctx.check(len(radio.tx_fifo) == int(op[-1]), "the scenario was reached (%s payloads wait in the TX FIFO)" % op[-1])
             b.__enter__()
         else:
             b.__exit__()
@@ -271,6 +295,11 @@ def jobs(tier):
         seqs = seqs + [s + (o,) for s in seqs if len(s) == max(len(x) for x in seqs) for o in CH_OPS]
     for s in sorted(set(seqs)):
         out.append(Job("O2-channel-whitening-sync", o2_sync, dict(ops=list(s)), cost=1 + len(s)))
+    for s in (("named_block",), ("named_block", "hop"), ("channel", "named_block"), ("named_block", "advertise_short")):
+        out.append(Job("O2-advertise-after-a-named-block", o2_sync, dict(ops=list(s)), cost=3))
+    for e in EXTRA_OPS:
+        for s in ((e,), (e, "hop"), ("channel", e)) + ((("advertise_short", e), (e, "reenter")) if tier == "thorough" else ()):
+            out.append(Job("O2-advertise-with-payloads-left-in-the-TX-FIFO", o2_sync, dict(ops=list(s)), cost=3))
     return out
 
 
@@ -280,7 +309,7 @@ META = {
                         "and 14) and None, PA field off / -12 dBm, symbolic MAC (bytes, 48-bit int, urandom), one chunk of a "
                         "length around the capacity boundary with symbolic data_type, 18 chunk lists, 0-2 hops; O2: all histories "
                         "of depth <= 3 over hop_channel / channel = BLE frequency / channel = other value / re-enter / a second "
-                        "FakeBLE advertising on the same radio",
+                        "FakeBLE advertising on the same radio; advertise() after another RF24 object left 1..3 payloads in the shared TX FIFO (the advertisement must be what goes on the air last)",
                "thorough": "chain law for every n in 2..29, whitening for every length 0..32, names 0..20, every PA level, O2 "
                            "depth 4"},
     "outside": ["non-ASCII str names (utf-8 multi-byte)", "names / chunks beyond the stated lengths",
